@@ -263,11 +263,13 @@ class _mark_ignore_name(ast.NodeTransformer):
 
 
 class _rewrite_captured_vars(ast.NodeTransformer):
-    def __init__(self, cv: inspect.ClosureVars):
+    def __init__(self, cv: inspect.ClosureVars, inlining: Tuple[Callable, ...] = ()):
         # A closure variable hides a global of the same name
         self._lookup_dict: Dict[str, Any] = dict(cv.globals)
         self._lookup_dict.update(cv.nonlocals)
         self._ignore_stack = []
+        # The functions being inlined around us (a recursive one is left as a call by name)
+        self._inlining = inlining
 
     def visit_Name(self, node: ast.Name) -> Any:
         if self.is_arg(node.id):
@@ -287,8 +289,15 @@ class _rewrite_captured_vars(ast.NodeTransformer):
                 # If it is something we know how to make into a literal, we just send it down
                 # like that.
                 return as_literal(v)
+            elif any(v is f for f in self._inlining):
+                return node
             elif callable(v) and ((lm := safe_parse_wrapper(v)) is not None):
-                return lm
+                # The function's own free names mean what they mean where it was defined
+                try:
+                    f_cv = global_getclosurevars(v)
+                except TypeError:
+                    return lm
+                return _rewrite_captured_vars(f_cv, self._inlining + (v,)).visit(lm)
             else:
                 # If it is a local function, we need to parse it as an AST
                 return node
